@@ -3,13 +3,13 @@ package main
 // Server-side rules: C18-SOURCES, C20 (T10, C20-TREE, C20-ONCE), C09 (H-PRIMARY, T11, C12-PAIR).
 
 import (
-	"os"
-	"sort"
-	"go/constant"
 	"fmt"
 	"go/ast"
+	"go/constant"
 	"go/token"
 	"go/types"
+	"os"
+	"sort"
 	"strings"
 
 	"golang.org/x/tools/go/ssa"
@@ -24,7 +24,9 @@ func ruleC18Sources(c *Ctx) {
 		if f.Pkg != c.P.SSAPkg("internal/server") {
 			continue
 		}
-		for _, call := range findCalls(f, func(cal *ssa.Function) bool { return calleeNameIs(cal, "analyzer.Analyzer).AnalyzeWithExternalDeclarations") }) {
+		for _, call := range findCalls(f, func(cal *ssa.Function) bool {
+			return calleeNameIs(cal, "analyzer.Analyzer).AnalyzeWithExternalDeclarations")
+		}) {
 			host, extCall = f, call
 		}
 	}
@@ -1064,11 +1066,15 @@ func ruleC09(c *Ctx) {
 			}
 			nRet++
 			tree, path := backSlice(r.Results[0]), backSlice(r.Results[1])
-			fromWS := sliceHasCall(tree, func(cal *ssa.Function, _ *ssa.Call) bool { return calleeNameIs(cal, "workspace.Workspace).GetResolved") })
+			fromWS := sliceHasCall(tree, func(cal *ssa.Function, _ *ssa.Call) bool {
+				return calleeNameIs(cal, "workspace.Workspace).GetResolved")
+			})
 			fromDoc := sliceHasCall(tree, func(cal *ssa.Function, _ *ssa.Call) bool {
 				return calleeNameIs(cal, "server.Server).GetResolved") || calleeNameIs(cal, "include.Loader).LoadFromContent")
 			})
-			pathRoot := sliceHasCall(path, func(cal *ssa.Function, _ *ssa.Call) bool { return calleeNameIs(cal, "workspace.Workspace).RootJournalPath") })
+			pathRoot := sliceHasCall(path, func(cal *ssa.Function, _ *ssa.Call) bool {
+				return calleeNameIs(cal, "workspace.Workspace).RootJournalPath")
+			})
 			pathDoc := sliceHasCall(path, func(cal *ssa.Function, _ *ssa.Call) bool { return calleeNameIs(cal, "server.uriToPath") })
 			okPair := (fromWS && !fromDoc && pathRoot) || (fromDoc && !fromWS && pathDoc && !pathRoot) || (!fromWS && !fromDoc)
 			if fromWS {
@@ -1081,7 +1087,9 @@ func ruleC09(c *Ctx) {
 						continue
 					}
 					isRoot := func(v ssa.Value) bool {
-						return sliceHasCall(backSlice(v), func(cal *ssa.Function, _ *ssa.Call) bool { return calleeNameIs(cal, "workspace.Workspace).RootJournalPath") })
+						return sliceHasCall(backSlice(v), func(cal *ssa.Function, _ *ssa.Call) bool {
+							return calleeNameIs(cal, "workspace.Workspace).RootJournalPath")
+						})
 					}
 					isDoc := func(v ssa.Value) bool {
 						for w := range backSlice(v) {
